@@ -38,3 +38,20 @@ MUTANTS = [
     ("M17", H, "        cp._edge_uid = copy(self._edge_uid)\n\n        return cp\n\n    def dual", "        return cp\n\n    def dual", ["C04", "C07"], "copy() does not carry the counter (harmless: add_edges_from recomputes)"),
     ("M18", U, "        start = int(idx) + 1\n", "        start = int(idx)\n", ["C04", "C01", "C05"], "counter restarts at the explicit ID itself"),
 ]
+
+ST = "xgi/stats/__init__.py"
+NS = "xgi/stats/nodestats.py"
+ES = "xgi/stats/edgestats.py"
+MUTANTS += [
+    ("M20", V, "            bunch = [idx for idx in self if values[idx] <= val]", "            bunch = [idx for idx in self if values[idx] < val]", ["C06"], "filterby leq -> <"),
+    ("M21", V, "                if len(self._id_dict[idx].intersection(self._id_dict[i])) >= s", "                if len(self._id_dict[idx].intersection(self._id_dict[i])) > s", ["C06"], "neighbors uses > s"),
+    ("M22", NS, "            n: len([e for e in net._node[n] if len(net._edge[e]) == order + 1])", "            n: len([e for e in net._node[n] if len(net._edge[e]) == order])", ["C06"], "degree(order=k) off by one"),
+    ("M23", V, "            newview._ids = [i for i in view._id_dict if i in bunch]", "            newview._ids = [i for i in bunch if i in view._id_dict]", ["C06"], "from_view does not preserve view order"),
+    ("M24", H, "        self._node.clear()\n        self._node_attr.clear()\n        self._edge.clear()\n        self._edge_attr.clear()\n        if remove_net_attr:",
+     "        self._node = self._node_dict_factory()\n        self._node_attr.clear()\n        self._edge.clear()\n        self._edge_attr.clear()\n        if remove_net_attr:", ["C06", "C01"], "clear() rebinds the node table: held views go stale"),
+    ("M25", ST, "        val = self._val\n        return [val[n] for n in self.view]", "        val = self._val\n        return [val[n] for n in val]", ["C06"], "aslist follows dict (set) order instead of view order"),
+    ("M26", ES, "        return {e: len(net._edge[e]) - 1 for e in bunch}", "        return {e: max(len(net._edge[e]) - 1, 0) for e in bunch}", ["C06"], "order of an empty edge reported as 0"),
+    ("M27", V, "                    dups.extend(sorted(edges)[1:])", "                    dups.extend(sorted(edges))", ["C06"], "duplicates returns all k"),
+    ("M28", V, "                if len(members) == 1:\n                    continue", "                if len(members) <= 1 or len(members) == 2:\n                    continue", ["C06"], "isolates(ignore_singletons) also ignores pairs"),
+    ("M29", "xgi/stats/dinodestats.py", "        return {n: len(net._node[n][\"in\"]) for n in bunch}", "        return {n: len(net._node[n][\"out\"]) for n in bunch}", ["C06", "C02"], "in_degree counts out-memberships"),
+]
